@@ -7,7 +7,7 @@ from plogio import *
 RULE = ("validated models (depth 0-3, all connectives, integer leaves incl. degenerate lo=hi, sharing, pre-fixed sub-propositions), "
         "directly and after a random assume() (leaf points / ranges / sub-proposition overrides) x interpretations of the free leaves "
         "(exhaustive when <= 600 points in the thorough tier, random otherwise); non-trivial = reduce() drops a constant child under a "
-        "negatively signed node or derives a new constant; distinct by canonical text of the model handed to reduce()")
+        "negatively signed node or derives a new constant; distinct by canonical text of the model handed to reduce(). History stream: reduce(), then a call that fixes a named sub-proposition on the same object, then reduce() again - the second answer is checked against the object as it is then")
 
 def free_leaves(a):
     return [l for l in leaves_of(a) if l.bounds.lower != l.bounds.upper]
@@ -29,6 +29,10 @@ def oracle_case(res, a, r, rng, n_env, cap=0):
     if consts and not (is_var(r) and len(nodes) == 1):
         return f"reduced model still contains constants {consts}: {canon(r)}", {}
     return None, None
+
+def build_like(obj):
+    """the object as it is now (dump() reads the live object; kept for symmetry with the fresh builds)"""
+    return obj
 
 def run(res, tier, seed):
     rng = random.Random(seed * 1000003 + 8)
@@ -61,6 +65,31 @@ def run(res, tier, seed):
                 res.violation("oracle", f"reduce() of {a!r}: {problem}", {"op": "reduce", "model": ast_json(ast), "d": None if d is None else {k: list(v) for k, v in d.items()}, "env": env, "problem": problem})
             cases.append((lambda it, a=a, r=r: f"({dump(a, it)}, {dump(r, it)})", (ast, d)))
             res.sample({"model": canon(a), "reduced": canon(r)})
+        # call history on ONE object: reduce(), then a call that fixes a named sub-proposition on that object
+        # (assume() / evaluate() naming its id re-bind the node's variable in place), then reduce() again: the second
+        # answer has to be the reduction of the object AS IT IS NOW
+        named = [x for x in all_nodes(m) if not is_var(x) and x.id != m.id and not x.generated_id and x.bounds.lower != x.bounds.upper]
+        if named and len(cases) % 2 == 0:
+            obj = build(ast)
+            tgt = rng.choice(named).id; c = rng.choice([0, 1])
+            try:
+                r1 = obj.reduce()
+                if rng.random() < 0.5:
+                    obj.assume({tgt: c})
+                else:
+                    obj.evaluate({tgt: c})
+                if not is_var(obj):
+                    r2 = obj.reduce()
+                    res.count("history_reduce_fix_reduce")
+                    if any(x.id == tgt and x.bounds.lower == x.bounds.upper for x in all_nodes(obj)):
+                        res.count("history_object_was_changed_in_place")
+                    problem, env = oracle_case(res, obj, r2, rng, 8 if tier == "quick" else 25, cap=0 if tier == "quick" else 600)
+                    if problem:
+                        res.violation("oracle", f"reduce() after reduce() and a call fixing {tgt}={c} on the same object {canon(obj)}: {problem}",
+                                      {"op": "history", "model": ast_json(ast), "fix": {tgt: c}, "env": env, "problem": problem})
+                    cases.append((lambda it, a=build_like(obj), r=r2: f"({dump(a, it)}, {dump(r, it)})", (ast, None)))
+            except Exception as e:
+                res.count("history_error:" + type(e).__name__)
     n, failing, errs = run_case_shards("C08", "reduce", "", "prop * prop", "check_reduce", cases)
     res.corr_cases += n; res.evaluations += n
     for e in errs:
@@ -78,6 +107,9 @@ def run(res, tier, seed):
 def replay(payload):
     r0 = payload.get("replay", payload)
     a = build(r0["model"])
+    if r0.get("op") == "history":
+        a.reduce()
+        a.assume({k: v for k, v in r0["fix"].items()})
     if r0.get("d"):
         a = a.assume({k: tuple(v) for k, v in r0["d"].items()})
     r = a.reduce()
